@@ -487,6 +487,7 @@ class _Rewriter:
         self.ex = _ExprRewriter(names, gen_names, sql, prop_names, gen_calls)
         self.gen_names = gen_names
         self.drop = drop_stmt
+        self.nested = False
         self.n_points = 0
         self._tmp = 0
 
@@ -560,6 +561,13 @@ class _Rewriter:
                     optional_vars=item.optional_vars))
             out.append(ast.With(items=new_items, body=self.body(s.body)))
             return out
+        if isinstance(s, ast.FunctionDef) and self.nested:
+            # a local helper (closure) of the twin becomes a generator function as well; the twin (or another twin) must call it
+            # through gen_calls (`yield from __coop_gen_call(name, ...)`), which drives it as part of the actor
+            s.body = self.body(s.body)
+            s.body.append(ast.If(test=ast.Constant(False), body=[ast.Expr(ast.Yield(ast.Constant(None)))], orelse=[]))
+            s.decorator_list = []
+            return [s]
         if isinstance(s, (ast.FunctionDef, ast.AsyncFunctionDef, ast.ClassDef)):
             return [s]
         return [self.ex.visit(s)]
@@ -577,7 +585,7 @@ def _find(owner, name):
 
 def yieldify(owner, names: list[str], all_names: set[str] | None = None, gen_names: set[str] | None = None,
              sql: bool = False, drop_stmt=None, suffix: str = "__gen", prop_names: set[str] | None = None,
-             gen_calls: set[str] | None = None) -> dict[str, int]:
+             gen_calls: set[str] | None = None, nested_defs: bool = False) -> dict[str, int]:
     """Install `<name>__gen` twins on `owner` (class or module). Returns yield-point counts.
     prop_names: attribute reads `X.<name>` become `yield from` of the property's twin; gen_calls: calls `name(...)` of module-level
     functions whose result may be a generator (cooperative task bodies) are driven as part of the actor."""
@@ -623,6 +631,7 @@ def yieldify(owner, names: list[str], all_names: set[str] | None = None, gen_nam
         assert isinstance(fdef, ast.FunctionDef), n
         rw = _Rewriter(all_names, set(gen_names), sql, drop_stmt, prop_names, gen_calls)
         rw.ex.fn_helpers = set(fn_helpers)
+        rw.nested = nested_defs
         _, start = inspect.getsourcelines(f)
         ast.increment_lineno(tree, start - 1)
         fdef.body = rw.body(fdef.body)
